@@ -420,6 +420,20 @@ def h_from_points(npts, align, pad_mode):
         prove(f"pts{k}:pad_hi_x", Or(rx.stop == nx, ex(rx.stop) >= x + padding), when=inside)
         prove(f"pts{k}:pad_lo_y", Or(ry.start == 0, ex(ry.start) <= y - padding), when=inside)
         prove(f"pts{k}:pad_hi_y", Or(ry.stop == ny, ex(ry.stop) >= y + padding), when=inside)
+    # non-finite points are IGNORED: the region hugs the envelope of the finite points -- it starts
+    # no lower than the smallest finite coordinate (floored) minus padding and alignment slack, and
+    # ends no higher than the largest (ceiled) plus those; a coordinate of a point whose other
+    # coordinate is not finite does not count
+    slack = padding + ((align - 1) if align else 0)
+    for c, (r_, n_) in enumerate(((rx, nx), (ry, ny))):
+        for k, f in enumerate(fin):
+            others_ge = [Or(Not(g), coords[j][c] >= coords[k][c]) if not isinstance(g, bool) else ((not g) or coords[j][c] >= coords[k][c]) for j, g in enumerate(fin)]
+            others_le = [Or(Not(g), coords[j][c] <= coords[k][c]) if not isinstance(g, bool) else ((not g) or coords[j][c] <= coords[k][c]) for j, g in enumerate(fin)]
+            is_min = And(f, *others_ge) if not isinstance(f, bool) else (f and all(bool(v) for v in others_ge))
+            is_max = And(f, *others_le) if not isinstance(f, bool) else (f and all(bool(v) for v in others_le))
+            v = coords[k][c]
+            prove(f"pts:hugs_the_finite_points_from_below[{'xy'[c]}{k}]", Or(ex(r_.start) > v - 1 - slack, r_.start == r_.stop, r_.start == n_), when=is_min)
+            prove(f"pts:hugs_the_finite_points_from_above[{'xy'[c]}{k}]", Or(ex(r_.stop) < v + 1 + slack, r_.start == r_.stop, r_.stop == 0), when=is_max)
     if align:
         prove("pts:aligned_x", And(Or(rx.start % align == 0, rx.start == nx), Or(rx.stop % align == 0, rx.stop == nx, rx.stop == 0)))
         prove("pts:aligned_y", And(Or(ry.start % align == 0, ry.start == ny), Or(ry.stop % align == 0, ry.stop == ny, ry.stop == 0)))
@@ -531,9 +545,52 @@ def _install_masked():
             return x  # a float64 array is handed back as it is (no copy)
         return _asarray(x, dtype) if dtype is not None else _asarray(x)
 
+    _where = getattr(NP, "where", None)
+
+    def where(cond, a, b):
+        # where(isfinite(xy), xy, nan): the same points, the non-finite entries as NaN
+        if isinstance(cond, _MaskMask) and cond.mp is a and isinstance(b, float) and b != b:
+            return _NanPoints(a)
+        if _where is not None:
+            return _where(cond, a, b)
+        import numpy as real_np
+
+        return real_np.where(cond, a, b)
+
+    def _nan_extreme(kind):
+        def f(a, axis=None):
+            mp = a.mp if isinstance(a, _NanPoints) else a
+            if not isinstance(mp, _MaskedPoints) or axis != 0:
+                raise symx.Unsupported("nanmin/nanmax of something else")
+            out = []
+            for c in (0, 1):
+                vals = [r[c] for r, fl in zip(mp.rows, mp.fin) if bool(fl[c])]  # forks on the flags
+                if not vals:
+                    out.append(float("nan"))
+                elif len(vals) == 1:
+                    out.append(vals[0])
+                else:
+                    out.append(symx.m_min(*vals) if kind == "min" else symx.m_max(*vals))
+            return npmodel.SymArray(out, "float64")
+
+        return f
+
+    NP.where = staticmethod(where)
+    NP.nanmin = staticmethod(_nan_extreme("min"))
+    NP.nanmax = staticmethod(_nan_extreme("max"))
     NP.clip = staticmethod(clip)
     NP.asarray = staticmethod(asarray)
     NP._masked = True
+
+
+class _NanPoints:
+    """the points with their non-finite entries replaced by NaN"""
+
+    ndim = 2
+
+    def __init__(self, mp):
+        self.mp = mp
+        self.shape = mp.shape
 
 
 class _MaskMask:
@@ -543,6 +600,16 @@ class _MaskMask:
 
     def all(self, *a, **kw):
         return self.m.all(*a, **kw)
+
+    def any(self, axis=None):
+        from .. import npmodel
+
+        cols = [Or(*[f[c] for f in self.mp.fin]) if self.mp.fin else False for c in (0, 1)]
+        if axis == 0:
+            return npmodel.SymArray(cols, "bool")
+        if axis is None:
+            return Or(*cols)
+        raise symx.Unsupported("mask.any along rows")
 
     @property
     def T(self):
